@@ -112,6 +112,19 @@ class C17(Prop):
                 for sink in ("file", "vec", "box"):
                     lines.append(case(sink, fg, bg, [], d, []))
         yield "kib-sized-data", lines
+        # data beyond 4 GiB (a zeroed allocation whose pages are never touched, an accept-all writer that keeps only
+        # lengths): the count reported is the number of data bytes accepted -- no 32-bit narrowing anywhere
+        # (the allocation is virtual, but the kernel may refuse an obvious overcommit: sizes the machine cannot map are left out)
+        avail = 0
+        try:
+            for l in open("/proc/meminfo"):
+                if l.startswith("MemAvailable:"):
+                    avail = int(l.split()[1]) * 1024
+        except OSError:
+            pass
+        sizes = [(lg, extra) for (lg, extra) in [(16, 1), (31, 0), (32, 0), (32, 5), (33, 17)] if (1 << lg) + extra < avail // 2]
+        yield "gib-sized-data", ["wchuge %s %s %d %d" % (fg, bg, lg, extra)
+                                  for (fg, bg) in [("9", "12"), ("-", "4"), ("1", "-"), ("-", "-")] for (lg, extra) in sizes]
         # a real File that cannot be written (/dev/full, read-only descriptor): the failure reaches the caller
         lines = []
         for fg, bg in PAIRS[::7] + [("-", "-"), ("1", "-"), ("-", "4")]:
@@ -178,9 +191,13 @@ class C17(Prop):
 
     def nontrivial(self, line, impl):
         p = line.split(" ")
+        if p[0] == "wchuge":
+            return p[1] != "-" or p[2] != "-"
         return p[2] != "-" or p[3] != "-"
 
     def shrink_fields(self, line):
         # pre and data
         parts = line.split(" ")
+        if parts[0] == "wchuge":
+            return []
         return [i for i in (4, 5) if parts[i] != "-"]
